@@ -312,6 +312,7 @@ func c02Explore(sp *c02Spec, first []EngOp, env *fw.Env, unit string, res *fw.Re
 					st = fs.clone()
 					st.apply(r.Log[cut], cc.Torn)
 				}
+				fw.Alive()
 				if err := st.dump(dst); err != nil {
 					res.HarnessErr = "dump: " + err.Error()
 					return
